@@ -343,6 +343,7 @@ func (f *flusher) flushData(b *blob) error {
 		return fmt.Errorf("disk store create: %w", err)
 	}
 	defer closers.Close(diskF)
+	verifYield("flushData.afterDiskCreate", key)
 	f.mu.Lock()
 	cur, ok := f.blobs[b.key]
 	if !ok || cur != b {
